@@ -151,6 +151,14 @@ CO_ERR COSdoResponse(CO_SDO *srv)
             result = COSdoDownloadBlock(srv);
         }
         return (result);
+    } else if (srv->Blk.State == BLK_DNEND) {
+        if ((cmd & 0xE3) == 0xC1) {
+            result = COSdoEndDownloadBlock(srv);
+        } else {
+            COSdoAbort(srv, CO_SDO_ERR_CMD);
+            COSdoAbortReq(srv);
+        }
+        return (result);
     } else if (srv->Blk.State == BLK_UPLOAD) {
         if (cmd == 0xA1) {
             result = COSdoEndUploadBlock(srv);
@@ -713,7 +721,11 @@ CO_ERR COSdoDownloadBlock(CO_SDO *srv)
                 CO_SET_BYTE(srv->Frm, 0, i);
             }
             srv->Blk.SegCnt  = 0;
-            srv->Blk.State   = BLK_DNWAIT;
+            if ((cmd & 0x80) != 0) {
+                srv->Blk.State = BLK_DNEND;
+            } else {
+                srv->Blk.State = BLK_DNWAIT;
+            }
             result           = CO_ERR_NONE;
         }
 
